@@ -8,6 +8,7 @@ import (
 	"time"
 
 	"verif/dbm"
+	"verif/vfs"
 )
 
 // TestShrink minimises the failing case in VERIF_REPLAY (a dbm case) and
@@ -83,6 +84,74 @@ func TestShrink(t *testing.T) {
 		base = lc.Base
 		run = func(b *dbm.Case) error { x := *lc; x.Base = b; _, err := runLifecycle(&x); return err }
 		wrap = func(b *dbm.Case) any { x := *lc; x.Base = b; return &x }
+	case raw.Property == "C08" || raw.Property == "C09":
+		ec := &ECase{}
+		json.Unmarshal(raw.Case, ec)
+		tryE := func(mod func(x *ECase)) bool {
+			x := *ec
+			mod(&x)
+			for i := 0; i < 2; i++ {
+				if _, err := runFaultsFor(raw.Property, &x); err != nil {
+					*ec = x
+					return true
+				}
+			}
+			return false
+		}
+		tryE(func(x *ECase) { x.After = nil })
+		tryE(func(x *ECase) { x.DamageBlk = 0 })
+		for i := 0; i < len(ec.Faults) && len(ec.Faults) > 1; {
+			if !tryE(func(x *ECase) { x.Faults = append(append([]vfs.Fault{}, x.Faults[:i]...), x.Faults[i+1:]...) }) {
+				i++
+			}
+		}
+		tryE(func(x *ECase) { x.ArmAt = 0 })
+		tryE(func(x *ECase) { x.HealAt = 1 << 20 })
+		base = &dbm.Case{Opts: ec.Opts, Cmp: ec.Cmp, Keys: ec.Keys, Ops: ec.Ops, Det: true}
+		mk := func(b *dbm.Case) *ECase {
+			x := *ec
+			x.Opts, x.Cmp, x.Keys, x.Ops = b.Opts, b.Cmp, b.Keys, b.Ops
+			x.Opts.DisableBackoff = true
+			return &x
+		}
+		run = func(b *dbm.Case) error { _, err := runFaultsFor(raw.Property, mk(b)); return err }
+		wrap = func(b *dbm.Case) any { return mk(b) }
+	case raw.Property == "C04":
+		xc := &XCase{}
+		json.Unmarshal(raw.Case, xc)
+		tryX := func(mod func(x *XCase)) {
+			x := *xc
+			mod(&x)
+			for i := 0; i < 3; i++ {
+				if _, err := runCrashOnce(&x, x.CrashAt); err != nil {
+					*xc = x
+					return
+				}
+			}
+		}
+		tryX(func(x *XCase) { x.After = nil })
+		tryX(func(x *XCase) { x.Nested = nil })
+		base = &dbm.Case{Opts: xc.Opts, Cmp: xc.Cmp, Keys: xc.Keys, Ops: xc.Ops, Det: true}
+		mk := func(b *dbm.Case) *XCase {
+			x := *xc
+			x.Opts, x.Cmp, x.Keys, x.Ops = b.Opts, b.Cmp, b.Keys, b.Ops
+			return &x
+		}
+		// removing operations shifts the crash instant: accept a failure at any instant up to the old one
+		run = func(b *dbm.Case) error {
+			x := mk(b)
+			if _, err := runCrashOnce(x, x.CrashAt); err != nil {
+				return err
+			}
+			for at := x.CrashAt - 1; at > 4 && at > x.CrashAt-40; at-- {
+				if _, err := runCrashOnce(x, at); err != nil {
+					xc.CrashAt = at
+					return err
+				}
+			}
+			return nil
+		}
+		wrap = func(b *dbm.Case) any { return mk(b) }
 	case probe.Ops != nil:
 		base = &dbm.Case{}
 		json.Unmarshal(raw.Case, base)
